@@ -218,6 +218,9 @@ CATALOG = {
     "Folder": [("HistoryId", "UniqueId")], "ImageLabel": [("SliceCenter", "Rect")], "RayValue": [("Value", "Ray")],
     "Handles": [("Faces", "Faces")], "ArcHandles": [("Axes", "Axes")], "MeshPart": [("PhysicsData", "BinaryString")],
     "Sound": [("SoundId", "ContentId")],
+    # references under a spelling that is not the canonical one: the serialized names of WeldConstraint.Part0 / Part1
+    # (the only spelling real files use) and the deprecated alias part1 of JointInstance.Part1
+    "WeldConstraint": [("Part0Internal", "Ref"), ("Part1Internal", "Ref")], "Weld": [("part1", "Ref"), ("Part0", "Ref")],
 }
 
 
